@@ -147,17 +147,19 @@ Denotes(p) == <<Endpoint(p), RefKind(p), p.ref.text, p.ref.lat, p.ref.lon>>
 WFParts == { q \in Parts : WellFormed(q) }
 WFStrings == { Render(q) : q \in WFParts }
 WFPairs == { <<Render(q), Denotes(q)>> : q \in WFParts }
-Unambiguous(p) ==          \* (membership in an enumerated set is a binary search in TLC)
-  LET s == Render(p) IN
-  s \in WFStrings => WellFormed(p) /\ <<s, Denotes(p)>> \in WFPairs
+\* (the sets are bound by LET so that TLC evaluates them once; membership in an enumerated
+\* set is a binary search)
+UnambiguousAll ==
+  LET ws == WFStrings  wp == WFPairs IN
+  \A p \in Parts : LET s == Render(p) IN
+                   s \in ws => WellFormed(p) /\ <<s, Denotes(p)>> \in wp
 OneDenotation == Cardinality(WFPairs) = Cardinality(WFStrings)
 \* the canonical address text identifies the endpoint (so a serial that is a function of
 \* that text is a function of kind, host, port and path, and conversely)
 WFCanon == { <<Kind(q), Canon(Endpoint(q)), Endpoint(q)>> : q \in WFParts }
-CanonInjective(p) ==
-  WellFormed(p) =>
-    LET k == Kind(p)  c == Canon(Endpoint(p)) IN
-    \A t \in WFCanon : (t[1] = k /\ t[2] = c) => t[3] = Endpoint(p)
+CanonInjective ==
+  LET wc == WFCanon IN
+  \A t \in wc, u \in wc : (t[1] = u[1] /\ t[2] = u[2]) => t[3] = u[3]
 \* every well-formed endpoint with a value has a short table form, tcp also a long one
 TableFormsShape(p) ==
   WellFormed(p) =>
